@@ -59,6 +59,10 @@ type c08Rec struct {
 	NF     int
 	Line   string
 	Fields []string
+	// Split: what split($0, arr) gave; Re: the fields after $0 = $0 (both parse the record's text
+	// again with the CSV parser); HasSplit says whether the program observed them
+	Split, Re []string
+	HasSplit  bool
 }
 
 type c08Obs struct {
@@ -82,6 +86,15 @@ var c08funcs = map[string]any{
 		c08cur.Recs = append(c08cur.Recs, c08Rec{NR: nr, NF: nf, Line: line, Fields: c08cur.cur})
 		c08cur.cur = nil
 	},
+	"sp": func(nr, i int, v string) {
+		r := &c08cur.Recs[len(c08cur.Recs)-1]
+		r.Split, r.HasSplit = append(r.Split, v), true
+	},
+	"re": func(nr, i int, v string) {
+		r := &c08cur.Recs[len(c08cur.Recs)-1]
+		r.Re, r.HasSplit = append(r.Re, v), true
+	},
+	"spn":   func(nr, n, nf int) { c08cur.Recs[len(c08cur.Recs)-1].HasSplit = true },
 	"hdr":   func(i int, name string) { c08cur.Hdr = append(c08cur.Hdr, name) },
 	"named": func(v string) { c08cur.Named = append(c08cur.Named, v) },
 	"fin": func(nr int) {
@@ -93,10 +106,13 @@ var c08funcs = map[string]any{
 	"v":     func(r, i int) string { return string(c08rows[r-1][i-1]) },
 }
 
-const c08ReadProg = `{ if (side) getline sidevar < "side"; for (i = 1; i <= NF; i++) fld(NR, i, $i); rec(NR, NF, $0) } END { fin(NR) }`
+const c08ReadProg = `{ if (side) getline sidevar < "side"; for (i = 1; i <= NF; i++) fld(NR, i, $i); rec(NR, NF, $0)
+  n = split($0, arr); for (i = 1; i <= n; i++) sp(NR, i, arr[i]); $0 = $0; for (i = 1; i <= NF; i++) re(NR, i, $i); spn(NR, n, NF) } END { fin(NR) }`
 const c08ReadHdrProg = `NR == 1 { for (i = 1; i in FIELDS; i++) hdr(i, FIELDS[i]) }
 { for (i = 1; i <= NF; i++) fld(NR, i, $i); rec(NR, NF, $0); if (nm != "") named(@nm) } END { fin(NR) }`
 const c08RebuildProg = `BEGIN { n = nrows(); for (r = 1; r <= n; r++) { $0 = ""; k = ncols(r); for (i = 1; i <= k; i++) $i = v(r, i); print } }`
+// the rebuilt record is printed by a pattern-only rule (one input line per row)
+const c08RebuildImplicitProg = `{ r = NR; $0 = ""; k = ncols(r); for (i = 1; i <= k; i++) $i = v(r, i) } 1`
 const c08RebuildFileProg = `BEGIN { n = nrows(); for (r = 1; r <= n; r++) { $0 = ""; k = ncols(r); for (i = 1; i <= k; i++) $i = v(r, i); print > "out" } }`
 
 // c08ViaProg is the reader program for records obtained by getline in a BEGIN loop; n names the
@@ -187,12 +203,12 @@ func (c08Engine) Gen(r *core.Rand, tier string, i int) any {
 	if r.Chance(1, 4) {
 		sc.Kind = "roundtrip"
 		sc.Comment = ""
-		sc.Writer = core.Pick(r, []string{"print", "rebuild"})
+		sc.Writer = core.Pick(r, []string{"print", "rebuild", "print", "rebuild", "rebuild-implicit"})
 		sc.CRLF = r.Chance(1, 3)
 		if r.Chance(1, 4) {
 			sc.WarmMode = core.Pick(r, []string{"csv", "tsv"})
 		}
-		sc.ToFile = r.Chance(1, 4)
+		sc.ToFile = r.Chance(1, 4) && sc.Writer != "rebuild-implicit"
 		if r.Chance(1, 4) {
 			sc.WBuf = core.Pick(r, []int{16, 64, 1000, 4096, 8192})
 		}
@@ -423,7 +439,7 @@ func c08ExecRead(sc *c08Scn, data []byte, d core.Delivery, nm string, log *core.
 		obs.Bounds = shaped.Sim().Bounds
 	}
 	for _, rec := range obs.Recs {
-		log.Addf("rec %d %d %q %q", rec.NR, rec.NF, rec.Line, rec.Fields)
+		log.Addf("rec %d %d %q %q split=%q re=%q", rec.NR, rec.NF, rec.Line, rec.Fields, rec.Split, rec.Re)
 	}
 	log.Addf("hdr %q named %q fin %v %d status=%d err=%q panic=%q", obs.Hdr, obs.Named, obs.Fin, obs.FinNR, obs.Res.Status, obs.Res.errString(), obs.Res.Panic)
 	return obs
@@ -705,7 +721,7 @@ func c08Check(sc *c08Scn, d core.Delivery, obs, base *c08Obs, ref []c08RefRec, r
 		}
 		for i := range obs.Recs {
 			a, b := obs.Recs[i], base.Recs[i]
-			if a.Line != b.Line || a.NF != b.NF || a.NR != b.NR || strings.Join(a.Fields, "\x00") != strings.Join(b.Fields, "\x00") {
+			if a.Line != b.Line || a.NF != b.NF || a.NR != b.NR || strings.Join(a.Fields, "\x00") != strings.Join(b.Fields, "\x00") || strings.Join(a.Split, "\x00") != strings.Join(b.Split, "\x00") || strings.Join(a.Re, "\x00") != strings.Join(b.Re, "\x00") {
 				return &core.Failure{Oracle: "delivery-independence", Detail: fmt.Sprintf("%s: record %d is $0=%q fields=%q NR=%d, one-shot delivery gives $0=%q fields=%q NR=%d", desc(d), i+1, a.Line, a.Fields, a.NR, b.Line, b.Fields, b.NR)}
 			}
 		}
@@ -759,6 +775,23 @@ func c08Check(sc *c08Scn, d core.Delivery, obs, base *c08Obs, ref []c08RefRec, r
 		} else if o.Line != wantLine {
 			return &core.Failure{Oracle: "record-text", Detail: fmt.Sprintf("%s: $0 of record %d is %q, the record's own text is %q", desc(d), i+1, o.Line, wantLine)}
 		}
+		// (b') split($0, arr) and $0 = $0 parse the record's text again: the same fields, wherever
+		// an RFC 4180 reader gives the text alone (with or without a final newline) exactly one
+		// record - i.e. not for a quoted field that the terminator or the end of input cut short
+		if o.HasSplit && !strings.Contains(o.Line, "\r") && !strings.HasPrefix(o.Line, "\xef\xbb\xbf") {
+			r1, e1 := c08Reference(sc, []byte(o.Line))
+			r2, e2 := c08Reference(sc, []byte(o.Line+"\n"))
+			if e1 == nil && e2 == nil && len(r1) == 1 && len(r2) == 1 && strings.Join(r1[0].Fields, "\x00") == strings.Join(r2[0].Fields, "\x00") && len(r1[0].Fields) == len(r2[0].Fields) {
+				wf := r1[0].Fields
+				out.Probe("records_reparsed_by_split_and_assignment", 1)
+				if len(o.Split) != len(wf) || strings.Join(o.Split, "\x00") != strings.Join(wf, "\x00") {
+					return &core.Failure{Oracle: "split-fields", Detail: fmt.Sprintf("%s: split($0, arr) of record %d ($0=%q) gives %q, an RFC 4180 reader gives %q", desc(d), i+1, o.Line, o.Split, wf)}
+				}
+				if len(o.Re) != len(wf) || strings.Join(o.Re, "\x00") != strings.Join(wf, "\x00") {
+					return &core.Failure{Oracle: "reparse-fields", Detail: fmt.Sprintf("%s: after $0 = $0 record %d ($0=%q) has fields %q, an RFC 4180 reader gives %q", desc(d), i+1, o.Line, o.Re, wf)}
+				}
+			}
+		}
 		if sc.Header && nm != "" {
 			wantNamed := ""
 			for k, h := range wantHdr {
@@ -795,7 +828,9 @@ func c08RunRoundTrip(sc *c08Scn, keep bool) core.Outcome {
 	// writer
 	c08rows = sc.Rows
 	var src string
-	if sc.Writer == "rebuild" {
+	if sc.Writer == "rebuild-implicit" {
+		src = c08RebuildImplicitProg
+	} else if sc.Writer == "rebuild" {
 		src = c08RebuildProg
 		if sc.ToFile {
 			src = c08RebuildFileProg
@@ -828,6 +863,9 @@ func c08RunRoundTrip(sc *c08Scn, keep bool) core.Outcome {
 	if sc.CRLF {
 		cfg.NewlineOutput = interp.CRLFNewlineMode
 	}
+	if sc.Writer == "rebuild-implicit" {
+		cfg.Stdin = strings.NewReader(strings.Repeat("x\n", len(sc.Rows)))
+	}
 	if sc.WBuf > 0 {
 		cfg.Output = bufio.NewWriterSize(sink, sc.WBuf) // the interpreter flushes a *bufio.Writer at the end of the run
 	}
@@ -857,6 +895,9 @@ func c08RunRoundTrip(sc *c08Scn, keep bool) core.Outcome {
 		}
 		warm := *cfg
 		warm.Vars = nil
+		if sc.Writer == "rebuild-implicit" {
+			warm.Stdin = strings.NewReader(strings.Repeat("x\n", len(sc.Rows))) // a reader of its own
+		}
 		warm.Output = core.NewSimSink("warm", nil)
 		warm.OutputMode, warm.CSVOutput = c08IOMode(sc.WarmMode), interp.CSVOutputConfig{}
 		wr := guarded(func() (int, error) { return it.Execute(&warm) })
